@@ -214,16 +214,22 @@ impl<W: WorldSpec> Engine<W> {
             vio("C08", "rep-zero-generation", format!("{}: a generation counter is zero", name));
             return;
         }
-        // archetype version follows the model (monotone; wrap only with the feature)
-        let am = &self.ms[wid].archs[ai];
-        if !am.preset && dump.version as u64 != am.ver {
-            // Informational only when a property-preserving change bumps the version more often:
-            // the property needs "changes with every removal", checked behaviourally; here we only
-            // demand that it never moved backwards relative to removals.
-            if (dump.version as u64) < am.ver && !self.cfg.wrapping {
-                vio("C09", "rep-version", format!("{}: archetype version {} after {} removals", name, dump.version, am.removals));
-                return;
+        // archetype version: never moves backwards and changes with every removal (wrap only with
+        // the feature). The increment policy itself is not prescribed: the model adopts the
+        // observed value, so a property-preserving change of policy cannot trip a prediction.
+        {
+            let wrapping = self.cfg.wrapping;
+            let am = &mut self.ms[wid].archs[ai];
+            let v = dump.version as u64;
+            if am.ver_obs != 0 && !wrapping {
+                if v < am.ver_obs || (am.removals > am.rem_at_obs && v == am.ver_obs) {
+                    vio("C09", "rep-version", format!("{}: archetype version went {} -> {} over {} removals", name, am.ver_obs, v, am.removals - am.rem_at_obs));
+                    return;
+                }
             }
+            am.ver = v;
+            am.ver_obs = v;
+            am.rem_at_obs = am.removals;
         }
         // abstract state hash for the "distinct states" measure
         let mut hsh = mix(dump.len as u64, dump.capacity as u64);
